@@ -2,6 +2,7 @@ import Norad.Lemmas.C12
 import Norad.Lemmas.GlifTables
 import Norad.Lemmas.JudgeLink
 import Norad.Lemmas.JudgeDoc
+import Norad.Lemmas.JudgeConverse
 import Norad.Generated.GlifParser
 import Norad.Lemmas.C02
 import Norad.Lemmas.GlifGen
@@ -619,6 +620,11 @@ theorem attr_order_irrelevant (s : PS) {l₁ l₂ : List Attr} (hp : l₁.Perm l
 --   tokeniser delivers (`Shaped d`: attribute names pairwise different, prolog of declaration/comments, no `</lib>`/error inside a lib,
 --   readable note text, and the three spellings the recorded findings exclude) give `∃ g, parseGlif rd (Spec.flatten d) = .ok g`, for
 --   format 1 and format 2, under `ReadsNumerals rd`.  No lib hypothesis is needed: `judge`'s `objectLibsCheck` gives it.
+-- Converse, for a fragment (`Lemmas/JudgeConverse.lean`): **`judge_hard_error_rejected`** — clean items up to a position, then an item with a
+--   hard error of `HardFlag` (unknown element; anchor/guideline/image/note in format 1; unknown attribute on advance, unicode, anchor,
+--   guideline, image; lib not a dictionary) ⇒ rejected; `hardFlag_flagged`: each of these is an item `judge` flags.
+-- OPEN (converse): the other clause families at document level (duplicates, identifier clashes, required attributes, value errors,
+--   errors inside `outline`), which need lower bounds on the state after a clean prefix.
 --   and format 1.  Earlier note, kept:
 -- (was OPEN) legal_accepted for the whole grammar `Spec.flatten d` (any element order, comments anywhere, both versions).
 --   Kernel-checked instead (second phase, `Lemmas/C02.lean`, listed in the audit): acceptance element family by element
